@@ -432,4 +432,5 @@ def run(ctx):
     ctx.evaluations += calls - len(sweep)
     ctx.notes['make_knots_calls'] = calls
     tally.flush(ctx)
-    ctx.exhaustive = True
+    # small families are exhaustive in both tiers; the make_knots sweep covers every n <= 2000 only in the thorough tier
+    ctx.exhaustive = bool(thorough)
